@@ -246,6 +246,44 @@ func registerTimeExternals() {
 		t := types.Typ[types.Int64]
 		return Struct{uint64(0), fr.it.binop(tokenADD, t, t, a[0].(Struct)[1], a[1]), (*Value)(nil)}
 	}
+	cmpT := func(op string) ExtFn {
+		return func(fr *Frame, a []Value) Value {
+			x, y := a[0].(Struct)[1], a[1].(Struct)[1]
+			xi, ok1 := x.(uint64)
+			yi, ok2 := y.(uint64)
+			if !ok1 || !ok2 {
+				panic(abort{st: StUnsupported, msg: "comparison of symbolic instants"})
+			}
+			switch op {
+			case "before":
+				return int64(xi) < int64(yi)
+			case "after":
+				return int64(xi) > int64(yi)
+			}
+			return xi == yi
+		}
+	}
+	externals["(time.Time).Before"] = cmpT("before")
+	externals["(time.Time).After"] = cmpT("after")
+	externals["(time.Time).Equal"] = cmpT("equal")
+	externals["(time.Time).Compare"] = func(fr *Frame, a []Value) Value {
+		x, y := int64(a[0].(Struct)[1].(uint64)), int64(a[1].(Struct)[1].(uint64))
+		switch {
+		case x < y:
+			return norm(^uint64(0), 64, true)
+		case x > y:
+			return uint64(1)
+		}
+		return uint64(0)
+	}
+	externals["(time.Time).IsZero"] = func(fr *Frame, a []Value) Value {
+		x, ok := a[0].(Struct)[1].(uint64)
+		return ok && x == 0
+	}
+	externals["(time.Time).Sub"] = func(fr *Frame, a []Value) Value {
+		t := types.Typ[types.Int64]
+		return fr.it.binop(tokenSUB, t, t, a[0].(Struct)[1], a[1].(Struct)[1])
+	}
 	externals["time.Since"] = func(fr *Frame, a []Value) Value {
 		t := types.Typ[types.Int64]
 		return fr.it.binop(tokenSUB, t, t, fr.it.env.now, a[0].(Struct)[1])
